@@ -365,3 +365,50 @@ func formatArmsSymmetric(c *Ctx, rid string) {
 		}
 	}
 }
+
+// timestampEncoderUTC: an emitted encoder that formats an instant with a layout (DATE: "2006-01-02") does so in
+// UTC — the value comes from AsTime() (UTC by definition) or is converted with .UTC(); time.Unix(…) alone is in the
+// process's local zone, and the decoder parses the date as UTC midnight.
+func timestampEncoderUTC(c *Ctx, rid string) {
+	r := c.R
+	reDef := regexp.MustCompile(`^\s*(\w+) := (.+)$`)
+	reFmt := regexp.MustCompile(`(\w+)\.Format\(`)
+	for _, pkg := range []string{pkgHTTP, pkgClient} {
+		for _, cf := range corpusFor("_timestamp_format.pb.go") {
+			units, pos, prob := c.runUnitConcrete(pkg, "_timestamp_format.pb.go", cf.File)
+			name := pkgShort(pkg) + " *_timestamp_format.pb.go"
+			if prob != "" || len(units) == 0 {
+				r.Undec(rid, name, pos, "unit does not evaluate on the corpus file: "+prob)
+				continue
+			}
+			dir := ""
+			defs := map[string]string{}
+			n := 0
+			var bad []string
+			for _, l := range unitLines(units) {
+				if strings.HasPrefix(l, "func (x ") {
+					dir = ""
+					defs = map[string]string{}
+					if strings.Contains(l, "MarshalJSON()") {
+						dir = "enc"
+					}
+				}
+				if dir != "enc" {
+					continue
+				}
+				if m := reDef.FindStringSubmatch(l); m != nil {
+					defs[m[1]] = strings.TrimSpace(m[2])
+				}
+				for _, m := range reFmt.FindAllStringSubmatch(l, -1) {
+					n++
+					d := defs[m[1]]
+					if !(strings.HasSuffix(d, ".AsTime()") || strings.HasSuffix(d, ".UTC()") || strings.HasSuffix(d, ".In(time.UTC)")) {
+						bad = append(bad, fmt.Sprintf("%s := %s; %s", m[1], d, strings.TrimSpace(l)))
+					}
+				}
+			}
+			r.Check(len(bad) == 0 && n >= 1, rid, name+": encoders format instants in UTC", pos,
+				fmt.Sprintf("the emitted encoder formats an instant that is not in UTC (%d of %d sites, e.g. %q): in a process whose local zone is not UTC a DATE value near midnight is written as the neighbouring day, and the decoder reads it as UTC midnight of that day", len(bad), n, firstOf(bad)))
+		}
+	}
+}
